@@ -433,6 +433,18 @@ func taMutate(r *rng, text string, s *sink) string {
 			if li < len(lines) {
 				lines[li] = strings.Replace(l, "Lap", "Lop", 1)
 			}
+			// ... or an unknown metric that looks like the known ones (with the OBD suffix), in the header
+			for hi, h := range lines {
+				if strings.Contains(h, "Time") && !strings.HasPrefix(h, "#") && r.chance(1, 2) {
+					for _, known := range []string{"Engine Speed (RPM) *OBD", "Throttle Position (%) *OBD", "Altitude (m)", "Heading"} {
+						if strings.Contains(h, known) {
+							lines[hi] = strings.Replace(h, known, pick(r, []string{"Fuel Level (%) *OBD", "Oil Temp (C) *OBD", "Altitude (km)", "Heading *OBD", " *OBD"}), 1)
+							break
+						}
+					}
+					break
+				}
+			}
 		case 9: // random bytes
 			bs := make([]byte, 1+r.intn(12))
 			for i := range bs {
@@ -603,6 +615,10 @@ func corpusTA(cfg *config) []string {
 	// values that only half parse: every one of them is an unparsable value
 	for _, v := range []string{"1653983971.abc", "1653983971.", "1653983971", ".5", "1653983971.010x", "1653983971,010", "abc.010", "1653983971.-10", "+1653983971.010"} {
 		ops = append(ops, "dec mut "+hexStr("# Vehicle: Demo\n\"Time\",\"UTC Time\",\"Lap\"\n0.000,1653983971.000,0\n0.010,"+v+",0\n"))
+	}
+	// a column that is not a TrackAddict column, however much it looks like one
+	for _, c := range []string{"Fuel Level (%) *OBD", "Oil Temp (C) *OBD", " *OBD", "Altitude (km)"} {
+		ops = append(ops, "dec mut "+hexStr("# Vehicle: Car\n\"Time\",\"Lap\",\"OBD_Update\",\"Engine Speed (RPM) *OBD\",\""+c+"\"\n0.000,0,1,1155.500,42.0\n0.010,0,0,1155.500,43.5\n# Session End\n"))
 	}
 	for _, v := range []string{"0.010x", "0.", "1e1", "0,5"} {
 		ops = append(ops, "dec mut "+hexStr("Time,Lap\n0.000,0\n"+v+",0\n"))
